@@ -172,6 +172,15 @@ class OdxLinkDatabase:
     def __init__(self) -> None:
         self._db: Dict[OdxDocFragment, Dict[str, Any]] = {}
 
+    def __copy__(self) -> "OdxLinkDatabase":
+        # the per-fragment dictionaries must be copied as well,
+        # otherwise adding objects to the copy would also add them to
+        # the original database
+        result = OdxLinkDatabase()
+        result._db = {doc_frag: dict(id_map) for doc_frag, id_map in self._db.items()}
+
+        return result
+
     @overload
     def resolve(self, ref: OdxLinkRef, expected_type: None = None) -> Any:
         ...
